@@ -47,7 +47,8 @@ void harness (void) {
   DLIST_APPEND (MIR_insn_t, h_func.insns, &h_insn);
   r1 = MIR_gen (ctx, &h_item);
   H_ASSERT (r1 == addr, "generating an already generated function returns the function's address (its thunk), as the first generation did");
-  H_ASSERT (h_rt_calls == 1 && h_rt_thunk == addr && h_rt_to == call, "the thunk is redirected to the recorded call address");
+  /* whether the thunk is redirected again is the implementation's business (it already points there); if it is, then to the recorded address */
+  H_ASSERT (h_rt_calls == 0 || (h_rt_thunk == addr && h_rt_to == call), "a redirection of the function's thunk goes to the recorded call address");
   r2 = MIR_gen (ctx, &h_item);
   H_ASSERT (r2 == r1, "repeated generation gives the same address");
   H_ASSERT (DLIST_HEAD (MIR_insn_t, h_func.insns) == &h_insn && DLIST_TAIL (MIR_insn_t, h_func.insns) == &h_insn
